@@ -2,6 +2,8 @@ package edt
 
 import (
 	"fmt"
+	"go/constant"
+	"go/types"
 	"regexp"
 	"sort"
 	"strings"
@@ -190,6 +192,7 @@ func Check(rule *report.Rule, cfg *Config, sp *Spec) *Result {
 		}
 	}
 	paths := Walk(&c, fn)
+	paths = splitReturnedAtoms(sp, fn, paths)
 	res.Paths = len(paths)
 	pos := p.Pos(fn.Pos())
 	varset := map[string]bool{}
@@ -343,4 +346,41 @@ func clip(s string, n int) string {
 		return s[:n] + "…"
 	}
 	return s
+}
+
+// splitReturnedAtoms: a function with one boolean result that RETURNS a condition of the
+// specification's vocabulary (return a && (b || !c): the last operand is returned as a value, not
+// branched on) decides exactly like the same function with "if cond { return true }; return false".
+// Such a path is replaced by its two cases, so that both spellings are compared with the formula.
+func splitReturnedAtoms(sp *Spec, fn *ssa.Function, paths []*Path) []*Path {
+	res := fn.Signature.Results()
+	if res.Len() != 1 {
+		return paths
+	}
+	if b, ok := res.At(0).Type().Underlying().(*types.Basic); !ok || b.Kind() != types.Bool {
+		return paths
+	}
+	var out []*Path
+	for _, pa := range paths {
+		if pa.Note != "" || pa.Panic != nil || len(pa.Outcome) != 1 || pa.Outcome[0].Op == "const" {
+			out = append(out, pa)
+			continue
+		}
+		t, neg := pa.Outcome[0], false
+		if t.Op == "not" && len(t.Args) == 1 {
+			t, neg = t.Args[0], true
+		}
+		atom := t.String()
+		if _, known := sp.Vars[sp.abbrev(atom)]; !known {
+			out = append(out, pa)
+			continue
+		}
+		for _, val := range []bool{true, false} {
+			cp := *pa
+			cp.Lits = append(append([]Lit(nil), pa.Lits...), Lit{Atom: atom, Val: val, Term: t})
+			cp.Outcome = []*Term{constTerm(constant.MakeBool(val != neg))}
+			out = append(out, &cp)
+		}
+	}
+	return out
 }
